@@ -26,6 +26,8 @@ INTS = ['0', '1', '2', '3', '7', '10', '-1', '-4', '12', '100', '0']
 # integers beyond 2**53: exact in Python; a double cannot hold them (such tables are not sent to the JS leg)
 BIG_INTS = ['9007199254740993', '9007199254740995', '-9007199254740997', '123456789012345678', '123456789012345679', '1', '-3', '18014398509481985']
 FLOATS = ['0.5', '2.5', '-1.5', '10.25', '0.0', '3.75', '-0.25', '2.0']
+# 16-digit integers that a double still holds exactly (microsecond timestamps, large ids): their sums need more than 15 significant digits
+MED_INTS = ['1700000000000001', '1700000000000002', '1000000000000003', '4503599627370497', '1234567890123457', '-1000000000000001']
 KEYS = ['a', 'B', 'ab', 'a b', 'c', 'b', 'Zz', 'é']
 
 
@@ -52,6 +54,8 @@ def gen_numeric_table(rng, big=True):
     kinds = [rng.choice(['int', 'int', 'float', 'mixed', 'zeros', 'int', 'float', 'mixed', 'zeros', 'nint', 'nfloat', 'nmixed', 'fancy']) for _ in range(nvals)]
     if big and rng.random() < 0.06:
         kinds[rng.randrange(nvals)] = rng.choice(['bigint', 'nbigint'])
+    elif big and rng.random() < 0.08:
+        kinds[rng.randrange(nvals)] = rng.choice(['medint', 'nmedint'])
     A = []
     for r in range(nrows):
         rec = [rng.choice(kv) for kv in kvals]
@@ -65,6 +69,10 @@ def gen_numeric_table(rng, big=True):
             elif kd == 'fancy':
                 # numeric strings in the other spellings both host languages accept: exponents, bare leading / trailing dot, explicit sign, padding, leading zeros
                 rec.append(rng.choice(['1e3', '5E-1', '.5', '-.25', '+5', ' 7 ', '1.', '-0', '00012', '2.50', '1e-2', '+.5e1']))
+            elif kd == 'medint':
+                rec.append(rng.choice(MED_INTS))
+            elif kd == 'nmedint':
+                rec.append(int(rng.choice(MED_INTS)))
             elif kd == 'bigint':
                 rec.append(rng.choice(BIG_INTS))
             elif kd == 'nbigint':
@@ -155,8 +163,9 @@ def gen_case(rng, i, neutral_only=False):
         q['top'] = rng.randrange(0, 4)
         q['top_kw'] = rng.choice(['top', 'limit'])
     case = common.case_json(q, {'A': A, 'B': None, 'a_names': a_names, 'b_names': None})
-    if any(abs(int(c)) > 2 ** 53 for r in A for c in r[nkeys:] if isinstance(c, int) or isinstance(c, str) and c.lstrip('-').isdigit()):
-        case['py_only'] = True
+    ints = [[abs(int(c)) for c in r[nkeys:] if isinstance(c, int) or isinstance(c, str) and c.lstrip('-').isdigit()] for r in A]
+    if any(v > 2 ** 53 for r in ints for v in r) or sum(max(r or [0]) for r in ints) > 2 ** 53:
+        case['py_only'] = True          # a double cannot hold the cells, or not even their sum
     return case
 
 
